@@ -46,8 +46,13 @@ def _mod(inputs, outputs, stmts, bbtypes=None, name="top"):
 def core(ctx):
     for t in S.ALL_GATES:
         for k in ([1] if t in S.UNARY else [1, 2, 3, 4]):
-            for const in (None, "1'b0", "1'b1"):
+            for const in (None, "1'b0", "1'b1", "dup"):
                 ins = [["id", x] for x in ["a", "b", "c", "d"][:k]]
+                if const == "dup":
+                    if t in S.UNARY:
+                        continue
+                    ins = ins + ins
+                    const = None
                 if const and t not in S.UNARY:
                     ins = ins + [["const", int(const[-1]), const]]
                 st_ = [{"k": "gate", "t": t, "insts": [{"name": "g0", "out": "y", "ins": ins}]}]
@@ -105,8 +110,12 @@ def _module(draw, ctx):
         if kind == "gate":
             t = draw(st.sampled_from(S.ALL_GATES))
             k = 1 if t in S.UNARY else draw(st.sampled_from([1, 2, 2, 3, 3, 4, 5]))
-            k = min(k, len(avail) + 2)
-            ops = draw(st.lists(st.sampled_from(avail + ["1'b0", "1'b1"]), min_size=k, max_size=k, unique=True))
+            if draw(st.integers(0, 4)) == 0:
+                # repeated operands (both readers cancel pairs for parity gates)
+                ops = draw(st.lists(st.sampled_from(avail + ["1'b0", "1'b1"]), min_size=k, max_size=k))
+            else:
+                k = min(k, len(avail) + 2)
+                ops = draw(st.lists(st.sampled_from(avail + ["1'b0", "1'b1"]), min_size=k, max_size=k, unique=True))
             ins = [["const", int(o[-1]), o] if o.startswith("1'") else ["id", o] for o in ops]
             out = fresh.pop()
             stmts.append({"k": "gate", "t": t, "insts": [{"name": iname, "out": out, "ins": ins}]})
